@@ -318,6 +318,10 @@ func (r *tileHashReader) ReadHashes(indexes []int64) ([]Hash, error) {
 		tileOrder[tile] = len(tiles)
 		tiles = append(tiles, tile)
 	}
+	// The tiles planned so far are the ones authenticated by the tree hash.
+	// There can be fewer of them than len(stx), because several
+	// subtree hashes can live in the same tile.
+	numTreeHashTiles := len(tiles)
 
 	// Plan to fetch tiles containing the indexes,
 	// along with any parent tiles needed
@@ -398,7 +402,7 @@ func (r *tileHashReader) ReadHashes(indexes []int64) ([]Hash, error) {
 	}
 
 	// Authenticate full tiles against their parents.
-	for i := len(stx); i < len(tiles); i++ {
+	for i := numTreeHashTiles; i < len(tiles); i++ {
 		tile := tiles[i]
 		p := tileParent(tile, 1, r.tree.N)
 		j, ok := tileOrder[p]
